@@ -44,6 +44,7 @@ type coordCase struct {
 	SWR    bool // stale-while-revalidate on the resource
 	Big    bool // 32 MB bodies: more than the socket buffers hold (a slow client then blocks its handler)
 	NoCL   bool // the origin sends no Content-Length (chunked): a cut body is only seen as a read error
+	Vary   bool // every client sends the same Origin and the resource varies by it: the fill changes its key (ChangeKey)
 	Acts   []CoAct
 }
 
@@ -52,11 +53,11 @@ func (c coordCase) Sx() sx.V {
 	for _, a := range c.Acts {
 		acts = append(acts, sx.L(sx.S(a.Kind), sx.I(int64(a.I)), sx.S(a.Arg), sx.I(a.Dt)))
 	}
-	return sx.L(sx.S("coord"), sx.I(c.MaxAge), sx.B(c.SWR), sx.B(c.Big), sx.L(acts...), sx.B(c.NoCL))
+	return sx.L(sx.S("coord"), sx.I(c.MaxAge), sx.B(c.SWR), sx.B(c.Big), sx.L(acts...), sx.B(c.NoCL), sx.B(c.Vary))
 }
 
 func coordCaseFromSx(v sx.V) coordCase {
-	c := coordCase{MaxAge: v.N(1).Int(), SWR: v.N(2).Bool(), Big: v.N(3).Bool(), NoCL: v.N(5).Bool()}
+	c := coordCase{MaxAge: v.N(1).Int(), SWR: v.N(2).Bool(), Big: v.N(3).Bool(), NoCL: v.N(5).Bool(), Vary: len(v.List()) > 6 && v.N(6).Bool()}
 	for _, a := range v.N(4).List() {
 		c.Acts = append(c.Acts, CoAct{Kind: a.N(0).Str(), I: int(a.N(1).Int()), Arg: a.N(2).Str(), Dt: a.N(3).Int()})
 	}
@@ -113,6 +114,7 @@ type gatedOrigin struct {
 	cc       string
 	progress int64
 	noCL     bool
+	vary     bool
 }
 
 func (g *gatedOrigin) body(ver int) string {
@@ -199,6 +201,9 @@ func (g *gatedOrigin) Do(req *http.Request) (*http.Response, error) {
 	b := g.body(ver)
 	h := http.Header{"Content-Type": []string{"text/plain"}, "Cache-Control": []string{g.cc}, "Etag": []string{fmt.Sprintf(`"e%d"`, ver)}, "Content-Length": []string{fmt.Sprint(len(b))}}
 	declared := int64(len(b))
+	if g.vary {
+		h.Set("Vary", "Origin")
+	}
 	if g.noCL {
 		h.Del("Content-Length")
 		declared = -1
@@ -228,6 +233,7 @@ func (c *countingReader) Read(p []byte) (int, error) {
 }
 
 type coClient struct {
+	origin   string // sent as the Origin header when not empty
 	progress *int64
 	status  int
 	version string
@@ -251,11 +257,14 @@ func runClientV(addr string, slow bool, wantLen int, c *coClient, inm string) {
 	}
 	defer conn.Close()
 	conn.SetDeadline(time.Now().Add(40 * time.Second))
-	if inm != "" {
-		fmt.Fprintf(conn, "GET /c/r HTTP/1.1\r\nHost: client.test\r\nIf-None-Match: %s\r\n\r\n", inm)
-	} else {
-		fmt.Fprintf(conn, "GET /c/r HTTP/1.1\r\nHost: client.test\r\n\r\n")
+	extra := ""
+	if c.origin != "" {
+		extra = "Origin: " + c.origin + "\r\n"
 	}
+	if inm != "" {
+		extra += "If-None-Match: " + inm + "\r\n"
+	}
+	fmt.Fprintf(conn, "GET /c/r HTTP/1.1\r\nHost: client.test\r\n%s\r\n", extra)
 	br := bufio.NewReaderSize(conn, 4096)
 	resp, err := http.ReadResponse(br, &http.Request{Method: "GET"})
 	if err != nil {
@@ -310,7 +319,11 @@ func (c coordCase) Run() (sx.V, error) {
 	if err != nil {
 		return sx.L(), err
 	}
-	g := &gatedOrigin{bodyLen: 64, cc: fmt.Sprintf("max-age=%d", c.MaxAge), noCL: c.NoCL}
+	g := &gatedOrigin{bodyLen: 64, cc: fmt.Sprintf("max-age=%d", c.MaxAge), noCL: c.NoCL, vary: c.Vary}
+	clientOrigin := ""
+	if c.Vary {
+		clientOrigin = "https://a.example"
+	}
 	if c.SWR {
 		g.cc += ", stale-while-revalidate=1000"
 	}
@@ -404,7 +417,7 @@ func (c coordCase) Run() (sx.V, error) {
 	for _, a := range c.Acts {
 		switch a.Kind {
 		case "arrive":
-			cl := &coClient{done: make(chan struct{}), resume: make(chan struct{}), progress: &clientBytes}
+			cl := &coClient{done: make(chan struct{}), resume: make(chan struct{}), progress: &clientBytes, origin: clientOrigin}
 			clients[a.I] = cl
 			atomic.AddInt64(&arrivals, 1)
 			if a.Arg == "cond" {
@@ -502,7 +515,7 @@ func (c coordCase) Run() (sx.V, error) {
 		time.Sleep(40 * time.Millisecond)
 	}
 	settle()
-	final := &coClient{done: make(chan struct{}), resume: make(chan struct{}), progress: &clientBytes}
+	final := &coClient{done: make(chan struct{}), resume: make(chan struct{}), progress: &clientBytes, origin: clientOrigin}
 	t0 := time.Now()
 	atomic.AddInt64(&arrivals, 1)
 	go runClient(addr, false, g.bodyLen, final)
@@ -549,6 +562,14 @@ func coordPinned() []coordCase {
 		// revalidates must keep the key until its own fetch is answered
 		{MaxAge: 60, Big: true, Acts: []CoAct{act("arrive", 0, "slow"), act("arrive", 1, "fast"), act("arrive", 2, "fast"), {Kind: "adv", Dt: 100},
 			act("answer", 0, "new"), act("resume", 0, ""), act("answer", 1, "304"), act("answer", 2, "304")}},
+		// the resource varies by Origin (the fill moves to another key before it is written) and the fetch fails, is cut or is
+		// refused: the next request with that Origin must find the key free. (No request waits in these schedules: what waiters
+		// of a re-keyed fill do is not in the schedule model - see DESIGN A.4, observation F44.)
+		{MaxAge: 60, Vary: true, Acts: []CoAct{act("arrive", 0, "fast"), act("answer", 0, "cut"), act("arrive", 1, "fast"), act("answer", 1, "new")}},
+		{MaxAge: 60, Vary: true, Acts: []CoAct{act("arrive", 0, "fast"), act("answer", 0, "500"), act("arrive", 1, "fast"), act("answer", 1, "new")}},
+		{MaxAge: 60, Vary: true, NoCL: true, Acts: []CoAct{act("arrive", 0, "fast"), act("answer", 0, "cut"), act("arrive", 1, "fast"), act("answer", 1, "new")}},
+		{MaxAge: 60, Vary: true, Acts: []CoAct{act("arrive", 0, "fast"), act("answer", 0, "new"), {Kind: "adv", Dt: 100}, act("arrive", 1, "fast"), act("answer", 1, "cut"),
+			act("arrive", 2, "fast"), act("answer", 2, "new")}},
 		// the request that fetches carries a validator that matches what it fetches; the one that waits carries none
 		{MaxAge: 60, Acts: []CoAct{act("arrive", 0, "cond"), act("arrive", 1, "fast"), act("arrive", 2, "fast"), act("answer", 0, "new")}},
 		// requests that arrive while the first one's body is half way in (cache file created, not yet published)
